@@ -9,8 +9,9 @@
    Mode "calls":  Name x Arity(0..MaxArity) x Shape^arity.   Name is 1..NNames, an index into the
        table the harness GENERATES from the running code (every attribute MagicResolver
        resolves, every magic_nodes.registry key, every magic word name and alias of the site's
-       bundled siteinfo).  {{NAME}} for arity 0, {{NAME:s1|s2|s3}} otherwise.  The 3-ary level
-       (1000 shape triples per name) is thinned by a deterministic stride in the quick tier.
+       bundled siteinfo).  {{NAME}} for arity 0, {{NAME:s1|s2|s3}} otherwise.  The 2-ary and
+       3-ary levels (100 / 1000 shape tuples per name) are thinned by deterministic strides in
+       the quick tier.
        Each call also names its *small twin*: the same call with every number-like or oversize
        shape replaced by the small number; the harness bounds output, step count and allocation
        of a call by those of its twin (ExpectedClass, Twin).
@@ -24,6 +25,7 @@ EXTENDS Naturals, Sequences, FiniteSets, TLC, Json
 CONSTANTS Mode,        \* "calls" | "junk"
           NNames,      \* size of the generated name table
           MaxArity,    \* 0..3
+          Stride2,     \* keep one in Stride2 of the 2-ary shape pairs (1 = all)
           Stride,      \* keep one in Stride of the 3-ary shape triples (1 = all)
           Phase,       \* which residue is kept (derived from the seed)
           MaxLex,      \* junk: lexemes per sequence
@@ -44,9 +46,10 @@ Lexemes == <<"{{", "}}", "{{{", "}}}", "|", "=", ":", "#", "<noinclude>", "</noi
              "<onlyinclude>", "</onlyinclude>", "<nowiki>", "</nowiki>", "[[", "]]", "a", "T", "#if:", "#switch:", "lc:">>
 NLex == Len(Lexemes)
 
-Weight(ss) == IF Len(ss) < 3 THEN 0
-              ELSE (ShapeIdx(ss[1]) * 7 + ShapeIdx(ss[2]) * 13 + ShapeIdx(ss[3]) * 29) % Stride
-Kept(n, ss) == Len(ss) < 3 \/ Stride = 1 \/ (Weight(ss) + n) % Stride = Phase % Stride
+Weight(ss) == IF Len(ss) < 2 THEN 0
+              ELSE ShapeIdx(ss[1]) * 7 + ShapeIdx(ss[2]) * 13 + (IF Len(ss) = 3 THEN ShapeIdx(ss[3]) * 29 ELSE 0)
+StrideOf(ss) == IF Len(ss) = 2 THEN Stride2 ELSE IF Len(ss) = 3 THEN Stride ELSE 1
+Kept(n, ss) == StrideOf(ss) = 1 \/ (Weight(ss) + n) % StrideOf(ss) = Phase % StrideOf(ss)
 
 ShapeSeqs == UNION {[1..k -> {Shapes[i] : i \in 1..NShapes}] : k \in 0..MaxArity}
 LexSeqs   == UNION {[1..k -> {Lexemes[i] : i \in 1..NLex}] : k \in 1..MaxLex}
